@@ -19,6 +19,12 @@ func init() {
 			"at run time (packages resolve and execution/engine) no field of a cached plan node is assigned outside constructors (frozen: the tracing field); the plan cache stores a plan only after planning reported no error and after post-processing, under a key that is the hash of the printed operation; a planner is created per cache miss and pooled planning kits are reset before they return to the pool; " +
 			"per-request outputs of normalization (the variables remap) are never backed by pooled, reused storage. It does not decide option transparency (value level).",
 		Mutants: []Mutant{
+			{Name: "minifier tie-break removed (the repaired defect F5)", File: "v2/pkg/astminify/minify.go", Rule: "C09-R1", Key: "Minifier.apply/map-range1",
+				Old: "\t\treturn a.items[0].selectionSet - b.items[0].selectionSet\n", New: "\t\treturn 0\n"},
+			{Name: "authorization coordinates sorted without the field name", File: "v2/pkg/engine/postprocess/collect_authorization_coordinates.go", Rule: "C09-R1", Key: "collectAuthorizationCoordinates.Process/map-range1",
+				Old: "\t\treturn left.Coordinate.FieldName < right.Coordinate.FieldName\n", New: "\t\treturn false\n"},
+			{Name: "inverse dependency index no longer sorted", File: "v2/pkg/engine/plan/planner.go", Rule: "C09-R1", Key: "inverseMap/map-range1",
+				Old: "\t\tsort.Ints(inverse[key])\n", New: "\t\tsort.Ints(inverse[key][:0])\n"},
 			{Name: "collected authorization coordinates no longer sorted after the map range", File: "v2/pkg/engine/postprocess/collect_authorization_coordinates.go", Rule: "C09-R1", Key: "collectAuthorizationCoordinates.Process",
 				Old: "\tsort.Slice(response.Info.AuthorizationCoordinates, func(i, j int) bool {", New: "\tsort.Slice(response.Info.AuthorizationCoordinates[:0], func(i, j int) bool {"},
 			{Name: "loader clears a field of the shared fetch at run time", File: loaderGo, Rule: "C09-R2", Key: "prepareSingleFetch/writes:SingleFetch.DataSourceIdentifier",
@@ -57,11 +63,14 @@ func runC09(r *fw.Run) {
 		"postprocess.colorExclusive/map-range2":                            "work list of a confluent fixed-point colouring; the result is a map",
 		"postprocess.weaklyConnectedComponents/map-range1":                 "BFS work list; every component is sorted before it is emitted",
 		"postprocess.mergeFields.deduplicateOnTypeNames/map-range1":        "OnTypeNames is a set of type names (only membership is ever queried by the renderer)",
+		"postprocess.schedule/map-range1":                                  "the per-root member lists are only handed to schedule(), which works on a sorted copy of its input (sortedCopy)",
+		"plan.NodeSelectionBuilder.rebuildFieldDependencyIndexes/map-range1": "per-field-ref dependency lists: the concatenation order across the (field, datasource) entries of one field ref reaches only the order of FetchInfo.CoordinateDependencies[].DependsOn (diagnostic listing; the inverse index is sorted, requests and response shape never read it); unverified observation in DESIGN §9",
+		"plan.nodeSelectionVisitor.pruneStaleFieldRequirements/map-range2":   "same index as rebuildFieldDependencyIndexes (same reason)",
 	}
 	nRanges, nOrdered := 0, 0
 	for _, pkg := range []string{"plan", "postprocess", "gqlds", "astnorm", "astminify"} {
 		for _, fi := range p.Funcs(pkg) {
-			for _, s := range mapRangeSites(fi) {
+			for _, s := range mapRangeSites(fi, pkg) {
 				nRanges++
 				key := filepathBase(pkg) + "." + fi.Name() + "/map-range" + itoa(s.ord)
 				if len(s.ordered) == 0 {
@@ -95,7 +104,7 @@ func runC09(r *fw.Run) {
 func filepathBase(alias string) string { return alias }
 
 // mapRangeSites finds the ranges over maps in fi and their definite order-sensitive sinks.
-func mapRangeSites(fi *fw.FuncInfo) []mapRangeSite {
+func mapRangeSites(fi *fw.FuncInfo, pkg string) []mapRangeSite {
 	info := fi.Info()
 	var out []mapRangeSite
 	ord := 0
@@ -137,6 +146,19 @@ func mapRangeSites(fi *fw.FuncInfo) []mapRangeSite {
 		for changed := true; changed; {
 			changed = false
 			fw.WalkAll(rs.Body, func(m ast.Node) bool {
+				if inner, ok := m.(*ast.RangeStmt); ok && mentionsDerived(inner.X) {
+					// for _, dep := range deps — the elements of a range-derived collection are range-derived
+					for _, e := range []ast.Expr{inner.Key, inner.Value} {
+						if id, ok := e.(*ast.Ident); ok && id.Name != "_" {
+							if o := info.Defs[id]; o != nil && !derived[o] {
+								if _, isMap := info.TypeOf(inner.X).Underlying().(*types.Map); !isMap || e == inner.Value || true {
+									derived[o] = true
+									changed = true
+								}
+							}
+						}
+					}
+				}
 				if as, ok := m.(*ast.AssignStmt); ok {
 					for i, l := range as.Lhs {
 						if id, ok := l.(*ast.Ident); ok {
@@ -179,16 +201,25 @@ func mapRangeSites(fi *fw.FuncInfo) []mapRangeSite {
 					if root == nil || declaredInside(root, rs) {
 						continue
 					}
-					// indexed by the map key itself (m2[k] = append(m2[k], …)) is per-key, not ordered
+					// indexed by the range key itself (m2[k] = append(m2[k], …)): one append per key, nothing to order
+					sortTarget := l
 					if ix, ok := ast.Unparen(l).(*ast.IndexExpr); ok {
 						if _, isMap := info.TypeOf(ix.X).Underlying().(*types.Map); isMap {
-							continue
+							if kid, ok := rs.Key.(*ast.Ident); ok {
+								if iid, ok := ast.Unparen(ix.Index).(*ast.Ident); ok && info.Uses[iid] != nil && info.Uses[iid] == info.Defs[kid] {
+									continue
+								}
+							}
+							sortTarget = ix.X // the per-key lists are sorted through m2[…] afterwards
 						}
 					}
-					if sortedAfter(fi, rs, l) {
-						continue
-					}
 					k := "append to " + fw.ExprKey(info, l)
+					switch verdict, why := sortedAfter(fi, rs, sortTarget, siteKey(pkg, fi, ord)); verdict {
+					case sortTotal:
+						continue
+					case sortPartial:
+						k += " (sorted afterwards, but " + why + ")"
+					}
 					if !seen[k] {
 						seen[k] = true
 						site.ordered = append(site.ordered, k)
@@ -223,14 +254,46 @@ func declaredInside(o types.Object, n ast.Node) bool {
 	return o.Pos() >= n.Pos() && o.Pos() <= n.End()
 }
 
-// sortedAfter: after the range statement the function passes the slice to a sort function.
-func sortedAfter(fi *fw.FuncInfo, rs *ast.RangeStmt, target ast.Expr) bool {
+// Verdicts of sortedAfter.
+const (
+	sortNone    = iota // the slice is not sorted after the range
+	sortTotal          // sorted by a total order: the result does not depend on the order of insertion
+	sortPartial        // sorted by a comparator whose order is not known to be total: ties keep map order
+)
+
+// c09TotalComparators freezes, per site, the projections of the elements a comparator has to compare for its order to be
+// total on the entries of the map (confirmed by reading; the verdict holds as long as the comparator still compares
+// at least these).
+var c09TotalComparators = map[string]struct {
+	required []string
+	why      string
+}{
+	"postprocess.collectAuthorizationCoordinates.Process/map-range1": {[]string{"$.DataSourceID", "$.Coordinate.TypeName", "$.Coordinate.FieldName"},
+		"exactly the three components of the map key (authorizationCoordinateKey): two distinct entries never tie"},
+	"astminify.Minifier.apply/map-range1": {[]string{"$.depth", "$.enclosingTypeName", "$.items[0].selectionSet"},
+		"the first selection set of an entry is unique to it (every selection set is counted under exactly one hash) and is numbered in document order"},
+}
+
+func siteKey(pkg string, fi *fw.FuncInfo, ord int) string {
+	return pkg + "." + fi.Name() + "/map-range" + itoa(ord)
+}
+
+// sortedAfter: after the range statement the function passes the slice (or, for per-key lists, an element of the map)
+// to a sort function. A natural-order sort (sort.Strings/Ints/Float64s, slices.Sort) is total. A comparator sort is total
+// when the elements are of a basic type and the comparator compares them whole, or when it compares at least the
+// projections frozen for this site in c09TotalComparators.
+func sortedAfter(fi *fw.FuncInfo, rs *ast.RangeStmt, target ast.Expr, site string) (int, string) {
 	info := fi.Info()
 	key := fw.ExprKey(info, target)
-	found := false
+	verdict, why := sortNone, ""
+	better := func(v int, w string) {
+		if verdict == sortNone || v == sortTotal {
+			verdict, why = v, w
+		}
+	}
 	fw.WalkAll(fi.Decl.Body, func(n ast.Node) bool {
 		c, ok := n.(*ast.CallExpr)
-		if !ok || c.Pos() < rs.End() {
+		if !ok || c.Pos() < rs.End() || len(c.Args) == 0 {
 			return true
 		}
 		fn := fw.Callee(info, c)
@@ -238,17 +301,195 @@ func sortedAfter(fi *fw.FuncInfo, rs *ast.RangeStmt, target ast.Expr) bool {
 			return true
 		}
 		p := fn.Pkg().Path()
-		if !(p == "sort" || p == "slices") || !(strings.HasPrefix(fn.Name(), "Sort") || fn.Name() == "Slice" || fn.Name() == "SliceStable" || fn.Name() == "Strings" || fn.Name() == "Ints" || fn.Name() == "Stable") {
+		if p != "sort" && p != "slices" {
 			return true
 		}
-		for _, a := range c.Args {
-			if fw.ExprKey(info, a) == key {
-				found = true
+		arg := ast.Unparen(c.Args[0])
+		argKey := fw.ExprKey(info, arg)
+		if ix, ok := arg.(*ast.IndexExpr); ok && argKey != key {
+			argKey = fw.ExprKey(info, ix.X) // sort.Ints(m2[k]) sorts the per-key lists of m2
+		}
+		if argKey != key {
+			return true
+		}
+		switch fn.Name() {
+		case "Strings", "Ints", "Float64s", "Sort":
+			if p == "sort" && fn.Name() == "Sort" {
+				better(sortPartial, "through a sort.Interface whose Less is not analysed")
+				return true
+			}
+			better(sortTotal, "")
+		case "SortFunc", "SortStableFunc", "Slice", "SliceStable":
+			if len(c.Args) < 2 {
+				return true
+			}
+			lit, _ := ast.Unparen(c.Args[1]).(*ast.FuncLit)
+			if lit == nil {
+				better(sortPartial, "the comparator is not a function literal")
+				return true
+			}
+			proj := comparedProjections(info, lit, arg, strings.HasPrefix(fn.Name(), "Slice"))
+			if proj["$"] {
+				if _, basic := elemType(info.TypeOf(arg)).Underlying().(*types.Basic); basic {
+					better(sortTotal, "")
+					return true
+				}
+			}
+			if fz, ok := c09TotalComparators[site]; ok {
+				var missing []string
+				for _, rq := range fz.required {
+					if !proj[rq] {
+						missing = append(missing, rq)
+					}
+				}
+				if len(missing) == 0 {
+					better(sortTotal, "")
+					return true
+				}
+				better(sortPartial, "the comparator does not compare "+strings.Join(missing, ", ")+", which is what makes its order total ("+fz.why+"): entries that tie keep map order")
+				return true
+			}
+			var ps []string
+			for k := range proj {
+				ps = append(ps, k)
+			}
+			sort.Strings(ps)
+			better(sortPartial, "the comparator (compares "+strings.Join(ps, ", ")+") is not known to be a total order on the entries: entries that tie keep map order")
+		case "Stable":
+			better(sortPartial, "through a sort.Interface whose Less is not analysed")
+		}
+		return true
+	})
+	return verdict, why
+}
+
+func elemType(t types.Type) types.Type {
+	if t == nil {
+		return types.Typ[types.Invalid]
+	}
+	switch u := t.Underlying().(type) {
+	case *types.Slice:
+		return u.Elem()
+	case *types.Array:
+		return u.Elem()
+	}
+	return types.Typ[types.Invalid]
+}
+
+// comparedProjections returns the projections of the two elements that the comparator literal compares with each other:
+// "$" for the whole element, "$.f.g" for a field path, "$.items[0].x" for paths with constant indexes. byIndex: the
+// literal has index parameters (sort.Slice) and the elements are slice[i] / slice[j], possibly through local aliases.
+func comparedProjections(info *types.Info, lit *ast.FuncLit, slice ast.Expr, byIndex bool) map[string]bool {
+	out := map[string]bool{}
+	var params []types.Object
+	for _, f := range lit.Type.Params.List {
+		for _, n := range f.Names {
+			params = append(params, info.Defs[n])
+		}
+	}
+	if len(params) != 2 {
+		return out
+	}
+	side := map[types.Object]int{} // object → 1 | 2 (element side)
+	if !byIndex {
+		side[params[0]], side[params[1]] = 1, 2
+	}
+	sliceKey := fw.ExprKey(info, slice)
+	// base resolves the root of a selector chain to an element side
+	var base func(e ast.Expr) int
+	base = func(e ast.Expr) int {
+		switch x := ast.Unparen(e).(type) {
+		case *ast.Ident:
+			return side[info.Uses[x]]
+		case *ast.IndexExpr:
+			if byIndex && fw.ExprKey(info, x.X) == sliceKey {
+				if id, ok := ast.Unparen(x.Index).(*ast.Ident); ok {
+					if info.Uses[id] == params[0] {
+						return 1
+					}
+					if info.Uses[id] == params[1] {
+						return 2
+					}
+				}
+			}
+		case *ast.StarExpr:
+			return base(x.X)
+		case *ast.UnaryExpr:
+			return base(x.X)
+		}
+		return 0
+	}
+	// local aliases: left := s[i] / l := a
+	ast.Inspect(lit.Body, func(n ast.Node) bool {
+		if as, ok := n.(*ast.AssignStmt); ok && len(as.Lhs) == len(as.Rhs) {
+			for i, l := range as.Lhs {
+				if id, ok := l.(*ast.Ident); ok {
+					if o := info.Defs[id]; o != nil {
+						if sd := base(as.Rhs[i]); sd != 0 {
+							side[o] = sd
+						}
+					}
+				}
 			}
 		}
 		return true
 	})
-	return found
+	var chain func(e ast.Expr) (int, string)
+	chain = func(e ast.Expr) (int, string) {
+		e = ast.Unparen(e)
+		if sd := base(e); sd != 0 {
+			return sd, "$"
+		}
+		switch x := e.(type) {
+		case *ast.SelectorExpr:
+			if sd, c := chain(x.X); sd != 0 {
+				return sd, c + "." + x.Sel.Name
+			}
+		case *ast.IndexExpr:
+			if sd, c := chain(x.X); sd != 0 {
+				if cv, ok := fw.ConstVal(info, x.Index); ok {
+					return sd, c + "[" + cv + "]"
+				}
+			}
+		case *ast.CallExpr:
+			// len(a.x), strings.ToLower(a.x), a.Method(): a unary function of a projection
+			if len(x.Args) == 1 {
+				if sd, c := chain(x.Args[0]); sd != 0 {
+					return sd, types.ExprString(x.Fun) + "(" + c + ")"
+				}
+			}
+			if sel, ok := ast.Unparen(x.Fun).(*ast.SelectorExpr); ok && len(x.Args) == 0 {
+				if sd, c := chain(sel.X); sd != 0 {
+					return sd, c + "." + sel.Sel.Name + "()"
+				}
+			}
+		}
+		return 0, ""
+	}
+	pair := func(x, y ast.Expr) {
+		sx, cx := chain(x)
+		sy, cy := chain(y)
+		if sx != 0 && sy != 0 && sx != sy && cx == cy {
+			out[cx] = true
+		}
+	}
+	ast.Inspect(lit.Body, func(n ast.Node) bool {
+		switch x := n.(type) {
+		case *ast.BinaryExpr:
+			switch x.Op.String() {
+			case "==", "!=", "<", ">", "<=", ">=", "-":
+				pair(x.X, x.Y)
+			}
+		case *ast.CallExpr:
+			if len(x.Args) == 2 {
+				if fn := fw.Callee(info, x); fn != nil && (fn.Name() == "Compare" || fn.Name() == "Less" || fn.Name() == "Equal" || fn.Name() == "EqualFold") {
+					pair(x.Args[0], x.Args[1])
+				}
+			}
+		}
+		return true
+	})
+	return out
 }
 
 func writerLike(info *types.Info, c *ast.CallExpr) bool {
